@@ -80,12 +80,16 @@ example : Frag exTree = true := by decide
 example : pp exTree = "(2 + 3 x + 4) / 2 m ➞ -(a!)".toList := by decide
 example : (parseToks 60 (toks exTree)).map pp = some (pp (canon exTree)) := by decide
 
-/-- `print_parse_fails_conv_cond`: the excluded shape is a real failure — `2 ➞ (if true then a else b)` is
-printed as `2 ➞ if true then a else b`, which the grammar does not derive (`conversion` has no `if`).
+/-- `print_parse_conv_cond_repaired`: the shape excluded from `Frag` — a conditional as the *target* of a
+conversion — was a real failure of the pinned code (`2 ➞ (if true then a else b)` was printed as
+`2 ➞ if true then a else b`, which the grammar does not derive: known finding C15-conv-rhs-conditional). After
+the repair in numbat (the printer parenthesises a conditional on either side of `➞`) it is printed with the
+parentheses and reads back as itself.  (`Frag` still excludes the shape: `print_parse` is stated as before.)
 Replayed on the implementation: corpus/C15/findings.txt, `2 m -> (if true then cm else mm)`. -/
-theorem print_parse_fails_conv_cond :
+theorem print_parse_conv_cond_repaired :
     let e := Expr.bin .conv (.num 1 ['2']) (.cond (.bool true) (.ident ['a']) (.ident ['b']))
-    Frag e = false ∧ (parseToks 60 (toks e)).isNone = true := by decide
+    Frag e = false ∧ pp e = "2 ➞ (if true then a else b)".toList ∧
+      (parseToks 60 (toks e)).map pp = some (pp e) := by decide
 
 /-- `print_not_fixed_point_negative_exponent`: `metre⁻¹` carries the scalar `-1`; it is printed as
 `metre^-1`, read back as `metre^(-(1))`, and that tree is printed as `metre^(-1)`.
@@ -121,13 +125,15 @@ theorem print_parse_print (e : Expr) (hF : Frag e = true) (hS : Stable e = true)
 example : Stable exTree = true := by decide
 example : pp (canon exTree) = pp exTree := print_idempotent exTree (by decide)
 
-/-- `print_not_fixed_point_conv_chain_cond`: `a ➞ ((if true then b else c) ➞ d)` is in `Frag`, is printed as
-`a ➞ (if true then b else c) ➞ d`, read back left-nested, and that tree is printed as
-`a ➞ if true then b else c ➞ d` (which no longer parses as the same tree). -/
-theorem print_not_fixed_point_conv_chain_cond :
+/-- `print_fixed_point_conv_chain_cond_repaired`: `a ➞ ((if true then b else c) ➞ d)` is in `Frag` but not in
+`Stable`; before the repair its re-read (left-nested) tree was printed as `a ➞ if true then b else c ➞ d`, which
+no longer parsed as the same tree.  Now both trees are printed as `a ➞ (if true then b else c) ➞ d`.
+(`Stable` still excludes the shape: `print_idempotent` is stated as before; the *regrouping* of a conversion
+chain — the re-read tree is the left-nested one — remains, known finding C15-conv-chain-conditional.) -/
+theorem print_fixed_point_conv_chain_cond_repaired :
     let e := Expr.bin .conv (.ident ['a'])
       (.bin .conv (.cond (.bool true) (.ident ['b']) (.ident ['c'])) (.ident ['d']))
     Frag e = true ∧ Stable e = false ∧ pp e = "a ➞ (if true then b else c) ➞ d".toList ∧
-      pp (canon e) = "a ➞ if true then b else c ➞ d".toList := by decide
+      pp (canon e) = pp e := by decide
 
 end NumbatModel.Printer
